@@ -60,6 +60,7 @@ class Unit:
         self.loops = {}         # (cname, n) -> text
         self.groups = {}
         self.configs = None
+        self.thorough_configs = []
         self.cxxdefs = []
         self.parse(text if text is not None else open(path).read())
 
@@ -94,6 +95,8 @@ class Unit:
                 self.driver = attrs.get('driver')
                 if 'configs' in attrs:
                     self.configs = attrs['configs'].split(',')
+                if 'thorough_configs' in attrs:
+                    self.thorough_configs = attrs['thorough_configs'].split(',')
                 if 'cxxdefs' in attrs:
                     self.cxxdefs = [x for x in attrs['cxxdefs'].split(';') if x]
             elif kind == 'roots':
